@@ -5,7 +5,18 @@ THEOREMS = c07a.THEOREMS
 FINISH = getattr(c07a, "FINISH", {"level": "proof", "assumptions": []})
 
 
+KERNEL_THEOREMS = ["Slock.Aof.loadRemaining_generated", "Slock.Aof.writeRemaining_generated"]
+
+
+def check_aof_kernels(ctx):
+    """G3 tie: GetLockCommandExpriedTime / GetAofLockExpriedTime regenerated from the Go source on this run equal the model's
+    loadRemaining / writeRemaining, over which the deadline theorems are stated (proved)."""
+    if ctx.lake_build(["Slock.Proofs.KernelsAof"], exe=False):
+        ctx.audit("Slock.Proofs.KernelsAof", KERNEL_THEOREMS)
+
+
 def run(ctx):
     c07a.run(ctx)
+    check_aof_kernels(ctx)
     ctx.assumptions.append("only the deadline arithmetic of journalling/reload is covered here (never renews, |d'−d| bounds, expired records skipped); "
                            "the journal/replay refinement 'recover(journal) = persisted holds' is not yet proved (engine stage 2)")
